@@ -200,7 +200,7 @@ pub fn diff(exp: &[ANode], act: &[ANode], out: &mut BTreeSet<String>) {
         match (e, a) {
             (ANode::Text(x), ANode::Text(y)) => {
                 if x != y {
-                    if &normalise_line_ends(y) == x {
+                    if normalise_line_ends(y) == normalise_line_ends(x) {
                         out.insert("cdata-line-ends-not-normalised".into());
                     } else {
                         out.insert("text-value-differs".into());
